@@ -51,7 +51,7 @@ class SympySimulator(Backend):
                 by the user (if not, set to None).
         """
 
-        from sympy import simplify
+        from sympy import simplify, MatrixBase
         from sympy.physics.quantum import qapply
         from sympy.physics.quantum.qubit import Qubit, matrix_to_qubit, \
             qubit_to_matrix, measure_all
@@ -70,8 +70,12 @@ class SympySimulator(Backend):
             python_statevector = Qubit("0"*(source_circuit.width))
         elif isinstance(initial_statevector, Qubit):
             python_statevector = initial_statevector
-        elif isinstance(initial_statevector, (np.ndarray, np.matrix)):
-            python_statevector = matrix_to_qubit(initial_statevector)
+        elif isinstance(initial_statevector, MatrixBase):
+            # e.g. a statevector returned by this backend: any shape, as a column
+            python_statevector = matrix_to_qubit(initial_statevector.reshape(len(initial_statevector), 1))
+        elif isinstance(initial_statevector, (np.ndarray, np.matrix, list, tuple)):
+            # 1-D, row or column: matrix_to_qubit expects a column
+            python_statevector = matrix_to_qubit(np.asarray(initial_statevector).reshape(-1, 1))
         else:
             raise ValueError(f"The {type(initial_statevector)} type for initial_statevector is not supported.")
 
